@@ -287,10 +287,21 @@ def run(ctx):
                 segs = [rng.choice(qsegs if quoteish and rng.random() < 0.85 else segspace0) for _ in range(rng.choice([1, 1, 2]))]
                 if all(segs[j][2] + segs[j + 1][0] <= 4 for j in range(len(segs) - 1)):
                     break
+            if rng.random() < 0.12:
+                # a line without any container (plain text, a table row): the following constructed line may or may not interrupt it
+                la.append(rng.choice(["foo", "a | b", "| a | b |", "t"]))
+                lb.append(la[-1])
+                continue
             # (a fence is opened on the last line only: inside an open fence later lines are verbatim, their blanks not structural)
-            vs = variants(segs, rng.choice(["x", "x", "- z", "    c", "# h", "```" if i == nl - 1 else "x", "> q", "[r]: /u",
-                                            # (an empty list item cannot interrupt a paragraph: its marker and blanks would be paragraph text)
-                                            "" if segs[-1][1] == ">" else "x"]))
+            leaves = ["x", "x", "- z", "    c", "# h", "```" if i == nl - 1 else "x", "> q", "[r]: /u",
+                      # (an empty list item cannot interrupt a paragraph: its marker and blanks would be paragraph text -
+                      # except on the last line, where nothing follows that a hard break could be seen in)
+                      "" if (segs[-1][1] == ">" or i == nl - 1) else "x"]
+            if len(segs) == 1 and segs[0][1] == "-" and la and la[-1] in ("a | b", "| a | b |"):
+                # a would-be delimiter row behind a bullet, directly after a table-row-like plain line (anywhere else a line with
+                # pipes makes the table rule take the *previous* line as its header row, '>' markers included)
+                leaves += ["| -", "| - |", "| :-"] * 3
+            vs = variants(segs, rng.choice(leaves))
             la.append(vs[0])
             lb.append(rng.choice(vs))
         if la == lb:
